@@ -31,6 +31,11 @@ fn decorated_reserved() -> Vec<String> {
         v.push(format!("{}.", r));
         v.push(format!("{}{}", r, r));
     }
+    // names people actually use for claims, incl. the specification's footer claim names (kid, wpk) and the
+    // JWT header / payload vocabulary: none of them is reserved
+    for u in ["kid", "wpk", "nonce", "scope", "scp", "role", "roles", "name", "email", "typ", "alg", "cty", "azp", "sid", "uid", "user", "userId", "userid", "id", "key", "ver", "version", "purpose", "footer", "implicit", "assertion", "claims", "payload", "token", "exp1", "exp_", "_exp", "iss2", "sub-1", "aud[]", "jti.", "expiration", "not_before", "issued_at", "k", "w", "d"] {
+        v.push(u.to_string());
+    }
     for u in ["ключ", "鍵", "\u{1d11e}clef", "q\"\\\n", "a b", "data", "EXP", "expires", "issuer", "ｅｘｐ", "e\u{0078}p\u{0000}", "\u{feff}exp"] {
         v.push(u.to_string());
     }
